@@ -1,6 +1,7 @@
 """c13 — output well-formedness: theorems on splicing and import names; the generated
 corpus through the real cff in three modes, type-checked; alias differential; probes F7, F8."""
 import alias_common
+import corpus_common
 import gen_common
 import gen_modes
 import probes
@@ -14,6 +15,7 @@ def run(chk):
     alias_common.apply(chk, 300 if chk.tier == "quick" else 40000)
     gen_common.apply(chk, PID)
     gen_modes.apply(chk, PID)
+    corpus_common.apply(chk, PID)
     for name, title in (("F7", "ShadowTime (a local variable named time)"), ("F8", "Nested (a directive inside a task literal of another directive)")):
         verdict, detail = probes.run_probe(name)
         chk.count(1, key=("probe", name))
